@@ -2,7 +2,7 @@
 # Runs every hand-written mutant (and every stored seeded change) against its
 # annotated check; prints one line each and a summary. VERIF_RUNS limits the
 # runs per check (default: the quick tier).
-cd /verif
+cd "$(dirname "$(readlink -f "$0")")/.."
 caught=0; missed=0; other=0
 for m in mutants/*.patch; do
   out=$(tools/runmutant.sh "$m" "${1:-quick}" 2>&1); echo "$out" | grep -E "^MUTANT" 
